@@ -119,3 +119,8 @@ fn clause_id_eq() {
 // NOTE: a bounded harness for WatchedLiterals::requires (<= 3 candidates, symbolic assignments built through the
 // real DecisionTracker) was tried and dropped: CBMC exhausted 62 GB on it (Vec growth + iterator adapters), as
 // for every other harness of this crate with a symbolic collection.  Clause::requires stays not under contract.
+
+// NOTE: the planned bounded stand-in for the *memory* half of C18 (hold `&arena[id0]`, allocate further elements,
+// read through the reference under CBMC's pointer checks) was tried on the real Arena<StringId, u8> and dropped:
+// 1 + 130 allocations (one chunk boundary) did not finish in 20 minutes, 1 + 6 allocations made CBMC abort at the
+// 20 GB memory cap.  The aliasing question of C18 stays undecided (see DESIGN.md).
